@@ -17,10 +17,10 @@ import (
 )
 
 type expectation struct {
-	Judge   bool                     // false: outside the documented well-formed domain
-	Want2xx bool                     // the request must succeed / must be answered with a failure status
-	Either  bool                     // validate endpoints: failure of the library may be reported as valid:false or as an error status
-	Check   func(body []byte) string // 2xx body against the library's result; "" = ok
+	Judge   bool                                   // false: outside the documented well-formed domain
+	Want2xx bool                                   // the request must succeed / must be answered with a failure status
+	Either  bool                                   // validate endpoints: failure of the library may be reported as valid:false or as an error status
+	Check   func(body []byte, t1 time.Time) string // 2xx body against the library's result ("" = ok); t1 = server clock when the answer was read
 	Desc    string
 }
 
@@ -167,16 +167,31 @@ func model(method, path string, body []byte, now time.Time) expectation {
 			if err != nil {
 				return expectation{Judge: true, Want2xx: false, Desc: "library fails: " + err.Error()}
 			}
-			return expectation{Judge: true, Want2xx: true, Desc: fmt.Sprintf("GenerateTOTP(t=%d,%+v)=%s", t.Unix(), *par, code), Check: func(b []byte) string {
+			omitted := r.Timestamp == nil
+			t0 := t
+			return expectation{Judge: true, Want2xx: true, Desc: fmt.Sprintf("GenerateTOTP(t=%d,%+v)=%s", t.Unix(), *par, code), Check: func(b []byte, t1 time.Time) string {
 				var g genResp
 				if err := json.Unmarshal(b, &g); err != nil || g.Code == nil {
 					return "response is not the documented shape: " + string(b)
 				}
-				if *g.Code != code {
-					return fmt.Sprintf("code %q, library gives %q", *g.Code, code)
-				}
-				if g.Timestamp != t.Unix() {
+				want := code
+				if omitted {
+					// the server's clock decided: the echoed instant must lie between the
+					// moment the request was complete and the moment the answer was read,
+					// and the code must be the library's code for exactly that instant
+					if g.Timestamp < t0.Unix() || g.Timestamp > t1.Unix() {
+						return fmt.Sprintf("timestamp %d is not within [%d,%d], the time the request was being served", g.Timestamp, t0.Unix(), t1.Unix())
+					}
+					w, err := otp.GenerateTOTP(secret, time.Unix(g.Timestamp, 0), par)
+					if err != nil {
+						return "library fails for the echoed instant: " + err.Error()
+					}
+					want = w
+				} else if g.Timestamp != t.Unix() {
 					return fmt.Sprintf("timestamp %d, used instant %d", g.Timestamp, t.Unix())
+				}
+				if *g.Code != want {
+					return fmt.Sprintf("code %q, library gives %q for the echoed timestamp %d", *g.Code, want, g.Timestamp)
 				}
 				return ""
 			}}
@@ -199,7 +214,42 @@ func model(method, path string, body []byte, now time.Time) expectation {
 				t = time.Unix(*r.Timestamp, 0)
 			}
 			ok, err := otp.ValidateTOTP(secret, *r.Code, t, par)
-			return verdictExpectation(ok, err, fmt.Sprintf("ValidateTOTP(code=%q,t=%d,%+v)", *r.Code, t.Unix(), *par))
+			e := verdictExpectation(ok, err, fmt.Sprintf("ValidateTOTP(code=%q,t=%d,%+v)", *r.Code, t.Unix(), *par))
+			if r.Timestamp == nil {
+				// the server's clock decides; it may have advanced while the request was
+				// served: the verdict must be the library's for some instant in between
+				t0, code, p2 := t, *r.Code, *par
+				inner := e.Check
+				e.Check = func(b []byte, t1 time.Time) string {
+					msg := inner(b, t1)
+					if msg == "" || t1.Unix() == t0.Unix() {
+						return msg
+					}
+					var v valResp
+					if json.Unmarshal(b, &v) != nil || v.Valid == nil {
+						return msg
+					}
+					period := int64(p2.Period)
+					if period <= 0 || (t1.Unix()-t0.Unix())/period > 8 {
+						return "" // too many steps went by to enumerate: not judged
+					}
+					for ts := t0.Unix(); ; {
+						got, _ := otp.ValidateTOTP(secret, code, time.Unix(ts, 0), &p2)
+						if got == *v.Valid {
+							return ""
+						}
+						if ts >= t1.Unix() {
+							break
+						}
+						ts = (ts/period + 1) * period
+						if ts > t1.Unix() {
+							ts = t1.Unix()
+						}
+					}
+					return msg + fmt.Sprintf(" (for every instant in [%d,%d])", t0.Unix(), t1.Unix())
+				}
+			}
+			return e
 		case "/hotp/generate":
 			var c uint64
 			if r.Counter != nil {
@@ -209,7 +259,7 @@ func model(method, path string, body []byte, now time.Time) expectation {
 			if err != nil {
 				return expectation{Judge: true, Want2xx: false, Desc: "library fails: " + err.Error()}
 			}
-			return expectation{Judge: true, Want2xx: true, Desc: fmt.Sprintf("GenerateHOTP(c=%d,%+v)=%s", c, *par, code), Check: func(b []byte) string {
+			return expectation{Judge: true, Want2xx: true, Desc: fmt.Sprintf("GenerateHOTP(c=%d,%+v)=%s", c, *par, code), Check: func(b []byte, t1 time.Time) string {
 				var g genResp
 				if err := json.Unmarshal(b, &g); err != nil || g.Code == nil {
 					return "response is not the documented shape: " + string(b)
@@ -280,7 +330,7 @@ func model(method, path string, body []byte, now time.Time) expectation {
 			if err != nil {
 				return expectation{Judge: true, Want2xx: false, Desc: "library fails: " + err.Error()}
 			}
-			return expectation{Judge: true, Want2xx: true, Desc: "GenerateOCRA=" + code, Check: func(b []byte) string {
+			return expectation{Judge: true, Want2xx: true, Desc: "GenerateOCRA=" + code, Check: func(b []byte, t1 time.Time) string {
 				var g genResp
 				if err := json.Unmarshal(b, &g); err != nil || g.Code == nil {
 					return "response is not the documented shape: " + string(b)
@@ -305,7 +355,7 @@ func model(method, path string, body []byte, now time.Time) expectation {
 		}
 		want := otp.ListSuites()
 		sort.Strings(want)
-		return expectation{Judge: true, Want2xx: true, Desc: "ListSuites", Check: func(b []byte) string {
+		return expectation{Judge: true, Want2xx: true, Desc: "ListSuites", Check: func(b []byte, t1 time.Time) string {
 			var l struct {
 				Suites []string `json:"suites"`
 			}
@@ -330,7 +380,7 @@ func model(method, path string, body []byte, now time.Time) expectation {
 			return notJudged
 		}
 		cfg := otp.SuiteConfigFromRaws(*r.RawSuite)
-		return expectation{Judge: true, Want2xx: true, Desc: "SuiteConfigFromRaws", Check: func(b []byte) string {
+		return expectation{Judge: true, Want2xx: true, Desc: "SuiteConfigFromRaws", Check: func(b []byte, t1 time.Time) string {
 			var g struct {
 				Raw    string `json:"raw"`
 				Config mSuite `json:"config"`
@@ -379,7 +429,7 @@ func model(method, path string, body []byte, now time.Time) expectation {
 		if err != nil {
 			return expectation{Judge: true, Want2xx: false, Desc: "library fails: " + err.Error()}
 		}
-		return expectation{Judge: true, Want2xx: true, Desc: "URL=" + want, Check: func(b []byte) string {
+		return expectation{Judge: true, Want2xx: true, Desc: "URL=" + want, Check: func(b []byte, t1 time.Time) string {
 			var g struct {
 				URL string `json:"url"`
 			}
@@ -403,7 +453,7 @@ func model(method, path string, body []byte, now time.Time) expectation {
 			}
 		}
 		size := map[otp.Algorithm]int{otp.SHA1: 20, otp.SHA256: 32, otp.SHA512: 64}[algo]
-		return expectation{Judge: true, Want2xx: true, Desc: "RandomSecret(" + algoName(algo) + ")", Check: func(b []byte) string {
+		return expectation{Judge: true, Want2xx: true, Desc: "RandomSecret(" + algoName(algo) + ")", Check: func(b []byte, t1 time.Time) string {
 			var g struct {
 				Secret    string `json:"secret"`
 				Algorithm string `json:"algorithm"`
@@ -426,7 +476,7 @@ func model(method, path string, body []byte, now time.Time) expectation {
 
 func verdictExpectation(ok bool, err error, desc string) expectation {
 	if ok {
-		return expectation{Judge: true, Want2xx: true, Desc: desc + " = true", Check: func(b []byte) string {
+		return expectation{Judge: true, Want2xx: true, Desc: desc + " = true", Check: func(b []byte, t1 time.Time) string {
 			var v valResp
 			if e := json.Unmarshal(b, &v); e != nil || v.Valid == nil {
 				return "response is not the documented shape: " + string(b)
@@ -437,7 +487,7 @@ func verdictExpectation(ok bool, err error, desc string) expectation {
 			return ""
 		}}
 	}
-	return expectation{Judge: true, Want2xx: true, Either: true, Desc: fmt.Sprintf("%s = false (%v)", desc, err), Check: func(b []byte) string {
+	return expectation{Judge: true, Want2xx: true, Either: true, Desc: fmt.Sprintf("%s = false (%v)", desc, err), Check: func(b []byte, t1 time.Time) string {
 		var v valResp
 		if e := json.Unmarshal(b, &v); e != nil || v.Valid == nil {
 			return "response is not the documented shape: " + string(b)
